@@ -21,7 +21,11 @@ type HookFault struct {
 	Model string `json:"model"`
 	Occ   int    `json:"occ"`
 	Class string `json:"class,omitempty"` // the well-known error the hook's error wraps (simdrv.ClassError)
+	Panic bool   `json:"panic,omitempty"` // the hook panics (with a *HookPanic) instead of returning an error; the caller recovers
 }
+
+// HookPanic is the value a panicking hook panics with.
+type HookPanic struct{ ID int }
 
 // ApplyClass makes every error-returning fault of the list wrap the error
 // class (ErrBadConn bursts and cancellations keep their own values).
@@ -70,6 +74,8 @@ type SingleRun struct {
 	Events    []simdrv.Event
 	Hooks     []HookEvent
 	HookFired bool
+	Panicked  *HookPanic // the panic value that reached the caller of the operation (nil: none)
+	PanicMsg  string     // any other panic value that reached the caller
 	Open      simdrv.Counts
 	InUse     int
 	ClockN    int64
@@ -96,6 +102,9 @@ func (f *Fault) String() string {
 		return "none"
 	}
 	if f.Hook != nil {
+		if f.Hook.Panic {
+			return fmt.Sprintf("hook_panic %s.%s#%d", f.Hook.Model, f.Hook.Hook, f.Hook.Occ)
+		}
 		return fmt.Sprintf("hook_err %s.%s#%d", f.Hook.Model, f.Hook.Hook, f.Hook.Occ)
 	}
 	if f.Cancel != nil {
@@ -131,6 +140,9 @@ func (f *Fault) Short() string {
 		return "none"
 	}
 	if f.Hook != nil {
+		if f.Hook.Panic {
+			return fmt.Sprintf("hook_panic:%s.%s", f.Hook.Model, f.Hook.Hook)
+		}
 		return fmt.Sprintf("hook_err:%s.%s", f.Hook.Model, f.Hook.Hook)
 	}
 	if f.Cancel != nil {
@@ -233,6 +245,10 @@ func RunMulti(o env.Options, fs []*Fault, action HookAction, do func(e *env.Env)
 		var herr error
 		if f != nil && f.Hook != nil && f.Hook.Model == hc.Model && f.Hook.Hook == hc.Hook && f.Hook.Occ == n {
 			sr.HookFired = true
+			if f.Hook.Panic {
+				sr.Hooks = append(sr.Hooks, ev)
+				panic(&HookPanic{ID: f.Hook.ID})
+			}
 			herr = &HookErr{ID: f.Hook.ID, What: k, Class: f.Hook.Class}
 		}
 		if herr == nil && action != nil {
@@ -246,6 +262,17 @@ func RunMulti(o env.Options, fs []*Fault, action HookAction, do func(e *env.Env)
 	}
 	func() {
 		defer func() { fam.Sink = nil }()
+		// the caller of the operation recovers panics, like a request handler's middleware
+		defer func() {
+			if pv := recover(); pv != nil {
+				if hp, ok := pv.(*HookPanic); ok {
+					sr.Panicked = hp
+				} else {
+					sr.PanicMsg = fmt.Sprint(pv)
+				}
+				sr.Res.Err = fmt.Errorf("panic reached the caller: %v", pv)
+			}
+		}()
 		sr.Res = do(e)
 	}()
 	sr.InUse = e.Pool.Stats().InUse
@@ -308,7 +335,7 @@ func FaultedHash(baseHash, fault string, sr *SingleRun, extra ...string) string 
 func SortFaults(fs []Fault) {
 	key := func(f Fault) string {
 		if f.Hook != nil {
-			return fmt.Sprintf("h|%s|%s|%06d", f.Hook.Model, f.Hook.Hook, f.Hook.Occ)
+			return fmt.Sprintf("h|%s|%s|%06d|%v", f.Hook.Model, f.Hook.Hook, f.Hook.Occ, f.Hook.Panic)
 		}
 		if f.Cancel != nil {
 			return fmt.Sprintf("c|%06d", f.Cancel.K)
@@ -425,6 +452,15 @@ func HookSites(hooks []HookEvent, nextID *int) []Fault {
 		*nextID++
 		out = append(out, Fault{Hook: &HookFault{ID: *nextID, Hook: h.Hook, Model: h.Model, Occ: occ[k]}})
 		occ[k]++
+	}
+	return out
+}
+
+// HookPanicSites lists one hook_panic fault per recorded hook invocation.
+func HookPanicSites(hooks []HookEvent, nextID *int) []Fault {
+	out := HookSites(hooks, nextID)
+	for i := range out {
+		out[i].Hook.Panic = true
 	}
 	return out
 }
